@@ -11,7 +11,7 @@ from vlib import log
 TRUSTED_BASE_COMMON = [
     "Coq 8.16.1 kernel incl. vm_compute (no native_compute)",
     "tools/gen_consts.py (translator: constants/flag bits/CRC catalogue parameters from /repo/src and the vendored crc-catalog)",
-    "tools/gen_tables.py + harness/src/tables.rs (translator, part 2: complete behaviour tables of six finite-domain functions of the compiled crate -> Gen/Tables.v; Proofs/TableProofs.v re-proves model = table on every run)",
+    "tools/gen_tables.py + harness/src/tables.rs (translator, part 2: complete behaviour tables of six finite-domain functions of the compiled crate -> Gen/Tbl_<NAME>.v; Proofs/Tie*.v re-proves model = table on every run)",
     "extraction: ExtrOcamlBasic only, no Extract Constant / Extract Inductive of our own; OCaml 4.13.1 ocamlopt",
     "ocaml/modelrun.ml (char <-> extracted byte conversion, line loop)",
     "harness/ (Rust, case-line parsing/printing, catch_unwind) built against /repo with --cfg bp7_verif",
